@@ -187,8 +187,15 @@ class Gen:
                 return self.if_expr(STR, scopes, depth)
             if k < 0.87:
                 return self.index_expr(STR, scopes) or self.atom(STR, scopes)
-            if k < 0.93 and self.o.lists:
+            if k < 0.91 and self.o.lists:
                 return self.index_expr(LSTR, scopes) or self.atom(STR, scopes)
+            if k < 0.97:
+                m = rng.choice(["upper", "lower", "strip", "replace"])
+                recv = self.expr(STR, scopes, depth - 1)
+                args = [self.expr(STR, scopes, 0), self.expr(STR, scopes, 0)] if m == "replace" else []
+                if m == "replace" and args[0][0] == "lit" and args[0][2] == "":
+                    args[0] = ("lit", STR, "a")
+                return ("meth", recv, m, args, [], STR)
             return self.atom(STR, scopes)
         if t == BOOL:
             k = rng.random()
@@ -205,6 +212,11 @@ class Gen:
                 return ("bool", rng.choice(["and", "or"]), self.expr(BOOL, scopes, depth - 1), self.expr(BOOL, scopes, depth - 1))
             if k < 0.8:
                 return ("not", self.expr(BOOL, scopes, depth - 1))
+            if k < 0.87:
+                # the non-short-circuit operators on Bool
+                return ("bin", rng.choice(["&&", "||", "^^"]), self.expr(BOOL, scopes, depth - 1), self.expr(BOOL, scopes, depth - 1), BOOL)
+            if k < 0.91:
+                return ("meth", self.expr(STR, scopes, depth - 1), "startswith", [self.expr(STR, scopes, 0)], [], BOOL)
             return self.atom(BOOL, scopes)
         if t == LINT:
             k = rng.random()
@@ -212,6 +224,10 @@ class Gen:
                 return ("bin", "+", self.expr(LINT, scopes, depth - 1), self.expr(LINT, scopes, depth - 1), LINT)
             return self.atom(LINT, scopes, depth)
         if t == LSTR:
+            if rng.random() < 0.3:
+                sep = ("lit", STR, rng.choice([",", " ", "a", "ll", "-"]))
+                kw = [("maxsplit", ("lit", NAT, rng.choice([0, 1, 2])))] if rng.random() < 0.6 else []
+                return ("meth", self.expr(STR, scopes, depth - 1), "split", [sep], kw, LSTR)
             return self.atom(LSTR, scopes, depth)
         raise ValueError(t)
 
@@ -544,7 +560,7 @@ def etype(e):
         return e[-1]
     if k in ("cmp", "bool", "not"):
         return BOOL
-    if k in ("call", "ucall", "idx", "if"):
+    if k in ("call", "ucall", "idx", "if", "meth"):
         return e[-1]
     if k == "interp":
         return STR
@@ -623,6 +639,9 @@ def to_erg_expr(e):
         return f"(not {to_erg_expr(e[1])})"
     if k in ("call", "ucall"):
         return f"{e[1]}(" + ", ".join(to_erg_expr(a) for a in e[2]) + ")"
+    if k == "meth":
+        args = [to_erg_expr(a) for a in e[3]] + [f"{n} := {to_erg_expr(v)}" for n, v in e[4]]
+        return f"{to_erg_expr(e[1])}.{e[2]}(" + ", ".join(args) + ")"
     if k == "if":
         a = to_erg_expr(e[2])
         if e[4] in (NAT, INT) and not BARE_NUMERIC_IF[0]:
@@ -790,7 +809,8 @@ def to_py_expr(e):
     if k == "var":
         return pyname(e[1])
     if k == "bin":
-        return f"({to_py_expr(e[2])} {e[1]} {to_py_expr(e[3])})"
+        op = {"&&": "&", "||": "|", "^^": "^"}.get(e[1], e[1])
+        return f"({to_py_expr(e[2])} {op} {to_py_expr(e[3])})"
     if k == "un":
         return f"(-{to_py_expr(e[2])})"
     if k == "cmp":
@@ -801,6 +821,9 @@ def to_py_expr(e):
         return f"(not {to_py_expr(e[1])})"
     if k in ("call", "ucall"):
         return f"{pyname(e[1])}(" + ", ".join(to_py_expr(a) for a in e[2]) + ")"
+    if k == "meth":
+        args = [to_py_expr(a) for a in e[3]] + [f"{n}={to_py_expr(v)}" for n, v in e[4]]
+        return f"{to_py_expr(e[1])}.{e[2]}(" + ", ".join(args) + ")"
     if k == "if":
         return f"({to_py_expr(e[2])} if {to_py_expr(e[1])} else {to_py_expr(e[3])})"
     if k == "idx":
